@@ -12,12 +12,17 @@ from trie.constants import BLANK_NODE_HASH
 from trie.exceptions import ValidationError
 
 from . import alphabet
-from .dbs import InjectedWriteFailure, LogDict
+from .dbs import InjectedKeyError, InjectedWriteFailure, LogDict
+from trie.exceptions import MissingTrieNode
 from .engine import Step, digest, jsonable
 from .ref import mpt
 
 
 class BatchAbort(Exception):
+    pass
+
+
+class CallerKeyError(KeyError):
     pass
 
 
@@ -167,6 +172,7 @@ class HexSys:
                         w = self._count_writes(snap, ("op", op, f))
                         for n in range(w):
                             evs.append(("opwf", op, f, n))
+                            evs.append(("opwf", op, f, n, "keyerror"))
         for seq in self.batches:
             if "commit" in self.exits:
                 evs.append(("batch", seq, ("commit",)))
@@ -175,6 +181,7 @@ class HexSys:
                     evs.append(("batch", seq, ("abort", j)))
             if "cancel" in self.exits:
                 evs.append(("batch", seq, ("cancel", len(seq))))
+                evs.append(("batch", seq, ("abort", len(seq), "keyerror")))  # the caller's own code raises a KeyError
             if "badarg" in self.exits:
                 for j in range(len(seq) + 1):
                     evs.append(("batch", seq, ("badarg", j)))
@@ -182,6 +189,7 @@ class HexSys:
                 w = self._count_writes(snap, ("batch", seq, ("commit",)))
                 for n in range(w):
                     evs.append(("batch", seq, ("wfail", n)))
+                    evs.append(("batch", seq, ("wfail", n, "keyerror")))
             if self.nested and len(seq) == 1:
                 for inner in self.batches:
                     if len(inner) == 1:
@@ -251,12 +259,18 @@ class HexSys:
                                exc=repr(e)[:200], prune=self.prune))
                 return Step(None, m, viols)
         elif kind == "opwf":
-            _, op, form, n = ev
-            t.db.arm(n)
+            op, form, n = ev[1:4]
+            ke = len(ev) > 4
+            t.db.arm(n, InjectedKeyError if ke else None)
             try:
                 apply_op(t, {}, op, form)
             except InjectedWriteFailure:
                 pass
+            except (InjectedKeyError, MissingTrieNode, TypeError) as e:
+                # a write failing with a KeyError subclass is reported by the library as a missing node (or trips over its
+                # argument check); which exception comes out is not the property's business, the state afterwards is
+                if not ke:
+                    viols.append(V("C04", "wfail_other_exception", f"failing write surfaced as {type(e).__name__}", exc=repr(e)[:200]))
             except Exception as e:  # noqa
                 viols.append(V("C04", "wfail_other_exception", f"failing write surfaced as {type(e).__name__}", exc=repr(e)[:200]))
             else:
@@ -305,6 +319,8 @@ class HexSys:
         P = self.props
         pre_db = snap[1]
         exc_obj = BatchAbort("abort")
+        if exit_[0] == "abort" and len(exit_) > 2:
+            exc_obj = CallerKeyError("raised by the caller's code inside the block")
         try:
             with t.squash_changes() as b:
                 for j, op in enumerate(seq):
@@ -322,7 +338,7 @@ class HexSys:
                     self._leave(b, exit_, exc_obj)
                 batch_root = b.root_hash
                 if exit_[0] == "wfail":
-                    t.db.arm(exit_[1])
+                    t.db.arm(exit_[1], InjectedKeyError if len(exit_) > 2 else None)
         except BatchCancel:
             if exit_[0] != "cancel":
                 raise
@@ -335,7 +351,11 @@ class HexSys:
             if exit_[0] != "badarg":
                 viols.append(V(self._p("C05"), "batch_raised", f"batch raised {type(e).__name__}", exc=repr(e)[:200], prune=self.prune))
             viols += self._abort_restored(t, snap, model, "badarg")
-        except InjectedWriteFailure:
+        except CallerKeyError as e:
+            if e is not exc_obj:
+                viols.append(V("C05", "abort_wrong_exception", "a different exception object left the block"))
+            viols += self._abort_restored(t, snap, model, "abort_keyerror")
+        except (InjectedWriteFailure, InjectedKeyError):
             t.db.fail_at = None
             if exit_[0] != "wfail":
                 raise
@@ -582,10 +602,10 @@ class HexSys:
         if kind == "op":
             apply_op(t, m, ev[1], ev[2])
         elif kind == "opwf":
-            t.db.arm(ev[3])
+            t.db.arm(ev[3], InjectedKeyError if len(ev) > 4 else None)
             try:
                 apply_op(t, {}, ev[1], ev[2])
-            except InjectedWriteFailure:
+            except (InjectedWriteFailure, InjectedKeyError, MissingTrieNode, TypeError):
                 pass
             t.db.fail_at = None
         elif kind == "batch":
@@ -600,8 +620,8 @@ class HexSys:
                     if exit_[0] in ("abort", "badarg", "cancel"):
                         raise BatchAbort()
                     if exit_[0] == "wfail":
-                        t.db.arm(exit_[1])
-            except (BatchAbort, InjectedWriteFailure):
+                        t.db.arm(exit_[1], InjectedKeyError if len(exit_) > 2 else None)
+            except (BatchAbort, InjectedWriteFailure, InjectedKeyError):
                 pass
             else:
                 m.clear()
